@@ -11,6 +11,7 @@ every replay of the same history prefix with the first one (hash of all compared
 """
 import itertools
 import json
+import os
 
 import numpy as np
 
@@ -36,7 +37,8 @@ META = dict(
          "bytes still holding the poison (allocated, never written) are not results and are not compared. qacc is copied "
          "before a leading mj_inverse (documented input of inverse dynamics). forwardSkip needs the skipped stages computed "
          "by a forward-type call (excluded otherwise, counted). RK4 x sleep is documented as unsupported (excluded). "
-         "quick uses an orthogonal array over (jacobian, island, sleep); thorough the full product and depth 3.",
+         "quick uses an orthogonal array over (jacobian, island, sleep); thorough the full product and depth 3. Known sensor-only "
+         "divergences with a canonical key are reported once and the trace continues with those sensor values copied.",
     design_ref="DESIGN.md §3 C01")
 
 INTEGRATORS = ["Euler", "RK4", "implicit", "implicitfast"]
@@ -278,11 +280,16 @@ def run(ctx):
     N.cmp_for(lib)
     _init_enums()
     jobs = make_jobs(ctx)
+    sub = int(os.environ.get("VERIF_SUBSAMPLE", "1") or 1)      # debugging aid (mutation trials): every k-th job only
+    if sub > 1:
+        jobs = jobs[::sub]
+        ctx.exhaustive = False
     core.pmap(ctx, _chunk, jobs, nchunks=min(len(jobs), core.NCPU * 8))
     ctx.extra["model_option_pairs"] = len(jobs)
     ctx.extra["models"] = len(M.C01_MODELS)
     ctx.rule = ("12 feature models x option lattice (integrator{Euler,RK4,implicit,implicitfast} x solver{PGS,CG,Newton} x "
-                "cone{pyramidal,elliptic} x %s over jacobian{dense,sparse} x island{on,off} x sleep{off,on}) x donor builders "
+                "cone{pyramidal,elliptic} x %s over jacobian{dense,sparse} x island{on,off} x sleep{off,on}; the energy flag alternates "
+                "with the parity of the option indices) x donor builders "
                 "{A perturbed; B quiet} x receiver history {fresh, reset, used 3 steps+inverse, used forward only, used+garbage in "
                 "every derived buffer (sleep off)} x transfer {copyData, copyState(INTEGRATION), getState->setState} x all call "
                 "sequences of length %s over %s (every prefix is checked). An evaluation is one replayed history (all are distinct "
